@@ -13,6 +13,11 @@ Streams (all in-process against the code in lib.REPO, the model through the driv
   gs-validate  make_graph_from_spec(type, tokens) with recording wrappers around the generators, readGraph
                (replaced by a stub graph of known size) and the `save` format resolution: outcome class, error
                statement, the generator call with its converted arguments, the modifiers applied, the save format
+  gs-records   obtain_graph on dictionaries the parser cannot produce (args None / missing, foreign construction, options of
+               another graph type...): the exception CLASS must be the one the model's exception monad predicts
+               (a difference is a correspondence break only: these inputs are not reachable from a command line)
+  gs-huge      sizes of 2^63 and more: memory is outside the model, the implementation must still end in a clean error
+               (as found: OverflowError traceback = finding D43; with fixes/D43.diff: ValueError)
 An exception other than ValueError / OSError from the real code is a failing input of the property: the token
 list is rendered as a cnfgen command line and confirmed in a child process.  Any other difference is a
 correspondence break (the command line is still run in a child process to look for a traceback)."""
@@ -142,7 +147,7 @@ def number_tokens(rng, quick):
         for t in itertools.product(alpha, repeat=ln):
             toks.add(''.join(t))
     # random longer, number-like
-    for _ in range(3000 if quick else 40000):
+    for _ in range(6000 if quick else 120000):
         ln = rng.randint(4, 9)
         toks.add(''.join(rng.choice('0011223459..ee-+_  infaEN') for _ in range(ln)))
     for w in ('inf', 'infinity', 'nan'):
@@ -254,7 +259,7 @@ def parse_cases(rng, quick):
             for tail in ([], ['g.gml'], ['gml', 'g'], ['gml'], ['g.gml', 'h.gml'], ['gml', 'g', 'h'], ['matrix', 'g'], ['dimacs', 'g'], ['save'], ['save', 'save'],
                          ['save', 'x.gml', 'save', 'y.gml'], ['1'], ['addedges'], ['kthlist', 'save']):
                 cases.append((gt, base + ['save'] + tail))
-        for _ in range(1200 if quick else 20000):
+        for _ in range(2500 if quick else 60000):
             cases.append((gt, gen_head(rng, gt) + gen_option_part(rng, gt)))
     return cases
 
@@ -363,7 +368,7 @@ def validate_cases(rng, quick):
     # random structured
     for gt in TYPES:
         n = 0
-        while n < (1500 if quick else 25000):
+        while n < (3000 if quick else 60000):
             toks = gen_head(rng, gt, tame=rng.random() < 0.8) + gen_option_part(rng, gt, tame=rng.random() < 0.8)
             if small_enough(toks):
                 cases.append((gt, toks))
@@ -449,6 +454,20 @@ class Real:
         except BaseException as e:        # noqa
             return ('crash', type(e).__name__, str(e)[:200])
         return ('ok', res)
+
+    def obtain(self, parsed, seed):
+        """obtain_graph on a dictionary that need not come from the parser"""
+        self.rec = []
+        _random.seed(seed)
+        try:
+            G = self.ga.obtain_graph(dict(parsed))
+        except ValueError as e:
+            return ('err', valid_tag(str(e)), str(e))
+        except OSError as e:
+            return ('oserror', type(e).__name__, str(e)[:200])
+        except BaseException as e:        # noqa
+            return ('crash', type(e).__name__, str(e)[:200])
+        return ('ok', G)
 
     def make(self, gt, toks, seed):
         self.rec = []
@@ -838,6 +857,46 @@ def run_graphspec(ctx):
                 continue
             # guard => precondition, observed: the graph has the order the model computes
             ctx.tally('gs-validate construction accepted', str(plan[0][0]))
+
+        # ---------------- obtain_graph on arbitrary dictionaries (exception classes of the model) ----------------
+        # these inputs cannot come from a command line: a difference is a correspondence break, never a failing input
+        recs = []
+        for gt in TYPES:
+            foreign = 'gnp' if gt != 'simple' else 'tree'
+            for c in CONS[gt] + [foreign]:
+                for args in (None, [], ['2'], ['3', '2'], ['3', '3', '1'], ['x'], 'absent'):
+                    for opts in ({}, {'save': ['g.gml']}, {'save': ['kthlist', 'g', 'h']}, {'save': ['autodetect', 'g.txt']}, {'plantclique': []},
+                                 {'addedges': ['1', '2']}, {'addedges': ['1']}, {'plantbiclique': ['1']}, {'plantbiclique': ['1', '1'], 'plantclique': ['1']}, {'splitedges': ['0']}):
+                        d = {'graphtype': gt, 'construction': c, 'filename': None, 'fileformat': None}
+                        if args != 'absent':
+                            d['args'] = args
+                        d.update(opts)
+                        recs.append(d)
+            for fn, ff in ((None, 'autodetect'), (None, 'gml'), ('g.gml', 'autodetect'), ('g', 'autodetect'), ('g.gml', 'kthlist')):
+                recs.append({'graphtype': gt, 'construction': None, 'args': None, 'filename': fn, 'fileformat': ff})
+                recs.append({'graphtype': gt, 'construction': None, 'filename': fn, 'fileformat': ff, 'save': ['x']})
+        some = lambda x: None if x is None else [Sym('some'), x]      # noqa
+        reqs = []
+        for d in recs:
+            opts = [[k, list(v)] for k, v in d.items() if k not in ('graphtype', 'construction', 'filename', 'fileformat', 'args')]
+            reqs.append(cmd('graphspec_validate_parsed', FILE_ORDER[d['graphtype']][0], FILE_ORDER[d['graphtype']][1],
+                            [Sym(d['graphtype']), some(d['construction']), some(d.get('args')), 'args' in d, some(d['filename']), some(d['fileformat']), opts]))
+        rep = ctx.model.batch(reqs)
+        for i, (d, m) in enumerate(zip(recs, rep)):
+            r = real.obtain(d, ctx.seed + i)
+            mv, wf = m[0], m[1]
+            mk = str(mv[0])
+            ctx.count('gs-records', i, nontrivial=True, sample=dict(parsed=d, outcome=r[0] if r[0] == 'ok' else r[1]) if i % 97 == 0 else None)
+            ctx.tally('gs-records outcome', ('crash ' + r[1]) if r[0] == 'crash' else r[0])
+            ctx.tally('gs-records well formed', str(wf))
+            if r[0] == 'oserror':
+                continue
+            same = ((r[0] == 'ok' and mk == 'ok') or (r[0] == 'crash' and mk == 'crash' and str(mv[1]) == r[1]) or
+                    (r[0] == 'err' and (mk == 'err' and str(mv[1]) == r[1] or r[1].startswith('late:') and mk in ('ok', 'err'))))
+            if not same:
+                report_diff('records', d['graphtype'], [], 'records: obtain_graph(%r) gives %s, the model says %s' % (d, r[:2], norm(mv)), repr(r[:2]), norm(mv), 'graphspec_validate_never_crashes')
+            if wf is True and r[0] == 'crash':
+                report_diff('records', d['graphtype'], [], 'records: a well formed dictionary %r ends in %s' % (d, r[1]), repr(r[:2]), norm(mv), 'graphspec_validate_never_crashes')
 
         # ---------------- sizes that are not even a valid index ----------------
         # (memory is outside the model: it says `ok`; the implementation must still end in a clean error)
